@@ -1483,6 +1483,8 @@ class Sym:
                 return self.lv_of_base(f'(AV "{key}")')
             base = self._ev(e.value, env)
             if isinstance(base, Ov):
+                if base.path + '.' + e.attr in env:      # (an attribute the code assigned earlier, possibly through another name)
+                    return env[base.path + '.' + e.attr]
                 return Ov(base.path + '.' + e.attr)
             if isinstance(base, Dv):
                 if e.attr in base.d:
@@ -1967,9 +1969,9 @@ class Sym:
         if params and params[0] == 'self':
             params = params[1:]
             local['self'] = with_self if with_self is not None else Ov('self')
-            for k, v in env.items():
-                if k.startswith('self.'):
-                    local[k] = v
+        for k, v in env.items():
+            if '.' in k and '[' not in k:                # attribute state of opaque objects: visible to (and updated by) the callee
+                local[k] = v
         defaults = fn.args.defaults
         for p, dflt in zip(params[len(params) - len(defaults):], defaults):
             saved = self.mod
@@ -1993,6 +1995,9 @@ class Sym:
         finally:
             self.depth -= 1
             self.mod, self.cls = saved
+            for k, v in local.items():                   # attribute stores the callee made (`pt.fuel_mass -= …`, `self.x = …`)
+                if '.' in k and '[' not in k and env.get(k) is not v:
+                    env[k] = v
 
     def inline_closure(self, c: 'Fnv', e: ast.Call, env) -> V:
         if self.depth > 6:
@@ -2057,6 +2062,11 @@ class Sym:
             st = stmts[i]
             i += 1
             if isinstance(st, ast.Expr):
+                c = st.value
+                if isinstance(c, ast.Call) and isinstance(c.func, ast.Attribute) and isinstance(c.func.value, ast.Name) \
+                        and c.func.value.id == 'self' and self.cls and (self.mod.method(self.cls, c.func.attr)
+                                                                        or self.mod.method_x(self.cls, c.func.attr)):
+                    self.ev(c, env)                       # a helper of the class called for its effects on the tracked state
                 continue  # docstrings, logging, warnings
             if isinstance(st, ast.Pass):
                 continue
@@ -2152,6 +2162,9 @@ class Sym:
         if isinstance(t, ast.Attribute):
             ch = self.chain(t)
             if ch:
+                root = env.get(ch[0])
+                if isinstance(root, Ov) and root.path != ch[0]:
+                    ch = root.path.split('.') + ch[1:]   # the object is known under the caller's name
                 key = '.'.join(ch)
                 if key in self.spec.cut_attr:
                     n = self.spec.cut_attr[key]
